@@ -4,6 +4,10 @@ import (
 	"rare/pkg/expressions"
 )
 
+// maxPrecision bounds a decimals/precision argument: strconv.FormatFloat allocates that many digits,
+// so an absurd constant (e.g. 50000000000) would run for minutes or exhaust memory
+const maxPrecision = 1024
+
 // Checks if word starts with s
 func isPartialString(s, word string) bool {
 	if len(s) > len(word) {
